@@ -6,4 +6,4 @@ d=$(mktemp -d /var/tmp/govc_mut.XXXXXX)
 trap 'rm -rf "$d"' EXIT
 rsync -a --exclude .git /repo/ "$d/"
 ( cd "$d" && patch -p1 -s < "$patch" ) || { echo "PATCH FAILED"; exit 9; }
-GOVC_REPO="$d" /verif/bin/govc "$@"
+GOVC_REPO="$d" ${GOVC_BIN:-/verif/bin/govc} "$@"
